@@ -91,14 +91,24 @@ Theorem C02_plugin_ack_after_commit_refuted :
 Proof. exact plugin_ack_after_commit_refuted. Qed.
 Print Assumptions C02_plugin_ack_after_commit_refuted.
 
+(* the strict and the weakened monitor differ only when a transaction with a failed Set committed
+   (what the finding key persister.flushNow/set-fails-commit-ok stands on) *)
+Theorem C02_strict_differs_only_by_failed_set : forall c l,
+  Mon_C02 true c l = false -> Mon_C02 false c l = true ->
+  exists ws snap, In (ECommit ws true snap) l /\ all_wok ws = false.
+Proof. exact strict_differs_only_by_failed_set. Qed.
+Print Assumptions C02_strict_differs_only_by_failed_set.
+
+(* what the engine hypothesis means in terms of the log *)
+Theorem C02_engine_in_order_spec : forall c s l,
+  accepts c l = true -> engine_in_order c s l ->
+  StronglySorted lt (init_of c s :: ereads s l) /\
+  (exists k, concat (eacks s l) = firstn k (ereads s l)) /\
+  Forall (fun ks => ks <> []) (eacks s l).
+Proof. exact engine_in_order_spec. Qed.
+Print Assumptions C02_engine_in_order_spec.
+
 (* --- non-vacuity: two sources, a healthy teardown at the instant the stream is cancelled --- *)
-Definition nv_cfg : cfg := mkCfg 2 [0; 3] 2 true.
-Definition nv_model : mcfg := mkM nv_cfg 100.
-Definition nv_schedule : list action :=
-  [ARead 0 1; ARead 0 2; AAck 0 [1; 2]; ARead 1 4; AAck 1 [4]; ATimer; AWriteDone true [] true;
-   ACallback 0; ACallback 0; ADeliver 0 true; ADeliver 1 true;
-   ARead 0 3; AAck 0 [3]; ATdBegin 0; AWriteDone true [] true; ACallback 0; ADeliver 0 true;
-   ATdWaited 0; ATdCancel 0].
 
 Example C02_nonvacuous :
   let l := run_log nv_model nv_schedule in
@@ -109,3 +119,13 @@ Example C02_nonvacuous :
   pc (Src y 0) = 3 /\ dq (Src y 0) = [] /\ timedout (Src y 0) = false /\ healthy t (src t 0) = true /\
   tdacks (src t 0) = 2 /\ lastp (src t 0) = 2 /\ Mon_C02 true nv_cfg l = true.
 Proof. vm_compute. repeat split. Qed.
+
+(* the "quiet start" hypothesis of C02_teardown_drains is needed: with two sources a graceful teardown in
+   which nothing fails and no wait times out can still drop the last ack (late flush callback) *)
+Example C02_teardown_needs_quiet_start :
+  let y := run (mkM late_cb_cfg 100) (init_sys (mkM late_cb_cfg 100)) late_cb_schedule in
+  eacks 0 (log_of y) = [[1]] /\ epacks 0 (log_of y) = [] /\ timedout (Src y 0) = false /\
+  In (ETdEnd 0 true) (log_of y) /\
+  forallb (fun e => match e with ECommit ws ok _ => ok && all_wok ws | ETxFail => false | ESendFail _ _ => false | _ => true end)
+          (log_of y) = true.
+Proof. exact teardown_needs_quiet_start. Qed.
